@@ -2,6 +2,7 @@
 from an import (Explorer, Tracer, guard_at, strip, strip_casts, walk, fmt, callee, const_eval, Inter, N)
 from muxcommon import derives_from_call, credit_leak_after_take
 from mir import loc_str
+import re
 import rules_c03, rules_c18
 
 EXPLANATION = (
@@ -523,6 +524,25 @@ def check(facts, rep, tier, cfg):
                                          any(y.kind == "call" and y[6] in RECVS for y in walk(x)) for x in walk(dn))
                             if not any(b.dominates(c_, bi) for c_ in cut) and not sliced:
                                 odd = odd + ["(no truncate(received length) before use)"]
+                        # the other fields of the frame, and the cut of the receive buffer, are values passed on as they are (no arithmetic,
+                        # masks or narrowing on a port / flow id / length between where it was obtained and the frame)
+                        from an import inexact_steps as _ix9, _PRESERVING_CALLS as _PC9
+
+                        def _src9(y):
+                            return y.kind == "param" or (y.kind == "call" and y[6] not in _PC9 and y[6] not in ("poll", "into_future", "new_unchecked", "get_context", "map_err"))
+                        for fld, bits in (("target_port", 16), ("flow_id", 32)):
+                            if fld in f:
+                                st9 = [z for z in _ix9(tr.operand(f[fld]), _src9, bits, extra_calls=("poll", "into_future", "new_unchecked", "get_context", "map_err"))
+                                       if not z.startswith("option::") and "::None" not in z]
+                                st9 = [z for z in st9 if not re.match(r"^\d+$", z.strip())]
+                                if st9:
+                                    odd = odd + ["%s computed: %s" % (fld, st9[0])]
+                        for bj, t2 in b.calls():
+                            c2 = callee(t2)
+                            if c2 and c2["name"] == "truncate" and len(t2["args"]) > 1 and ("Vec<u8>" in c2["path"] or "Vec::<u8>" in c2["path"]):
+                                st9 = _ix9(tr.operand(t2["args"][1]), _src9, None, extra_calls=("poll", "into_future", "new_unchecked", "get_context", "map_err"))
+                                if st9:
+                                    odd = odd + ["receive buffer cut to a computed length: %s" % st9[0]]
                         if odd or bufmut:
                             rep.bad("C01.R9", "payload-unmodified/%s" % b.path.split("::{")[0], where,
                                     "the datagram payload is transformed on its way (%s): the target / local client does not receive the bytes that were sent" % (odd + bufmut))
